@@ -391,3 +391,136 @@ def option_forward(ctx: Ctx, modules: Iterable[str], rule: str = "E7.option-forw
     ctx.extra.setdefault("option_forward", {})["sites"] = sites
     ctx.extra["option_forward"]["exceptions_used"] = sorted(f"{a} -> {b}: {c}" for a, b, c in used)
     return sites
+
+
+# ----------------------------------------------------------------------------- module-level state (cross-cutting)
+_MUTATING = {"append", "extend", "insert", "pop", "popitem", "clear", "update", "setdefault", "remove", "add", "discard", "sort", "reverse"}
+_CONTAINER_CALLS = {"dict", "list", "set", "OrderedDict", "dict.fromkeys", "defaultdict", "collections.OrderedDict", "collections.defaultdict"}
+
+
+def _module_containers(tree: ast.Module) -> Dict[str, int]:
+    out: Dict[str, int] = {}
+    for st in tree.body:
+        if isinstance(st, ast.Assign) and len(st.targets) == 1:
+            tg, v = st.targets[0], st.value
+        elif isinstance(st, ast.AnnAssign):
+            tg, v = st.target, st.value
+        else:
+            continue
+        if not isinstance(tg, ast.Name) or v is None:
+            continue
+        if isinstance(v, (ast.Dict, ast.List, ast.Set, ast.DictComp, ast.ListComp, ast.SetComp)) or \
+                (isinstance(v, ast.Call) and (dotted(v.func) or "") in _CONTAINER_CALLS):
+            out[tg.id] = st.lineno
+    return out
+
+
+def _module_state_sites(tree: ast.Module):
+    """(function node, node, container, alias) for every in-place modification of a module-level container inside a function,
+    directly or through a local name bound to the container itself (``meta = DEFAULTS`` without a copy)."""
+    glob = _module_containers(tree)
+    if not glob:
+        return
+    for fn in ast.walk(tree):
+        if not isinstance(fn, (ast.FunctionDef, ast.AsyncFunctionDef)):
+            continue
+        params = {a.arg for a in fn.args.posonlyargs + fn.args.args + fn.args.kwonlyargs}
+        binds: Dict[str, List[ast.expr]] = {}
+        for n in walk_no_nested(fn):
+            if isinstance(n, ast.Assign):
+                for tg in n.targets:
+                    if isinstance(tg, ast.Name):
+                        binds.setdefault(tg.id, []).append(n.value)
+            elif isinstance(n, (ast.AnnAssign, ast.AugAssign)) and isinstance(n.target, ast.Name) and n.value is not None:
+                binds.setdefault(n.target.id, []).append(n.value)
+            elif isinstance(n, (ast.For, ast.comprehension)) and isinstance(n.target, ast.Name):
+                binds.setdefault(n.target.id, []).append(n.iter)
+        blines: Dict[str, List[Tuple[int, ast.expr]]] = {}
+        for n in walk_no_nested(fn):
+            if isinstance(n, ast.Assign):
+                for tg in n.targets:
+                    if isinstance(tg, ast.Name):
+                        blines.setdefault(tg.id, []).append((n.lineno, n.value))
+            elif isinstance(n, (ast.AnnAssign, ast.AugAssign)) and isinstance(n.target, ast.Name) and n.value is not None:
+                blines.setdefault(n.target.id, []).append((n.lineno, n.value))
+            elif isinstance(n, ast.For) and isinstance(n.target, ast.Name):
+                blines.setdefault(n.target.id, []).append((n.lineno, n.iter))
+        direct = {g for g in glob if g not in binds and g not in params}
+
+        def owner(e) -> Optional[str]:
+            """The module-level container a name refers to at this point: the (textually) latest binding before the use is
+            ``name = CONTAINER`` with no copy; or the container's own name."""
+            if not isinstance(e, ast.Name) or e.id in params:
+                return None
+            if e.id in direct:
+                return e.id
+            prior = [(ln, v) for ln, v in blines.get(e.id, []) if ln <= e.lineno]
+            if not prior:
+                return None
+            v = max(prior, key=lambda t: t[0])[1]
+            if isinstance(v, ast.Name) and v.id in direct:
+                return v.id
+            return None
+        for n in walk_no_nested(fn):
+            hit = None
+            if isinstance(n, (ast.Assign, ast.AugAssign)):
+                for tg in (n.targets if isinstance(n, ast.Assign) else [n.target]):
+                    if isinstance(tg, ast.Subscript) and owner(tg.value):
+                        hit = tg.value
+            elif isinstance(n, ast.Delete):
+                for tg in n.targets:
+                    if isinstance(tg, ast.Subscript) and owner(tg.value):
+                        hit = tg.value
+            elif isinstance(n, ast.Call) and isinstance(n.func, ast.Attribute) and n.func.attr in _MUTATING and owner(n.func.value):
+                hit = n.func.value
+            if hit is not None:
+                yield fn, n, owner(hit), (hit.id if hit.id != owner(hit) else "")
+
+
+_MODULE_STATE_CONTROL = """
+DEFAULTS = dict.fromkeys(("a", "b"), None)
+CACHE = {}
+
+def leaky(x):
+    meta = DEFAULTS
+    meta["a"] = x
+    return meta
+
+def fine(x):
+    meta = dict(DEFAULTS)
+    meta["a"] = x
+    local = {}
+    local["k"] = x
+    return meta
+"""
+
+
+def module_state(ctx: Ctx, modules: Iterable[str], rule: str = "E1.module-state") -> int:
+    """No function modifies a module-level container in place (a call would then depend on the calls made before it)."""
+    ctx.rule(rule, "no function of the anchor modules modifies a module-level dict / list / set in place — neither directly nor through a "
+                   "local name bound to the container itself without a copy (``meta = DEFAULTS; meta[k] = v``): results must not depend "
+                   "on which calls were made before; a built-in positive example must be recognised on every run")
+    ctl = list(_module_state_sites(ast.parse(_MODULE_STATE_CONTROL)))
+    if [(f.name, c, a) for f, _, c, a in ctl] != [("leaky", "DEFAULTS", "meta")]:
+        raise AnalysisError(f"{rule}: positive control not recognised as expected: {[(f.name, c, a) for f, _, c, a in ctl]}")
+    prog = ctx.prog
+    nfun = 0
+    for mod in modules:
+        if mod not in prog.modules:
+            raise AnalysisError(f"anchor module vanished: {mod}")
+        mi = prog.modules[mod]
+        sites = list(_module_state_sites(mi.tree))
+        funcs = [n for n in ast.walk(mi.tree) if isinstance(n, (ast.FunctionDef, ast.AsyncFunctionDef))]
+        nfun += len(funcs)
+        bad = {}
+        for fn, node, cont, al in sites:
+            bad.setdefault((fn.name, cont), (fn, node, al))
+        ctx.ob(rule, mod, not bad, {"module": mod, "functions": len(funcs), "module_level_containers": sorted(_module_containers(mi.tree))})
+        for (fname, cont), (fn, node, al) in bad.items():
+            fi = next((f for f in list(mi.functions.values()) + [m for c in mi.classes.values() for m in c.methods.values()]
+                       if f.node is fn), None)
+            via = f" through the local name '{al}'" if al else ""
+            ctx.report(rule, fi, f"container={cont} function={fname}",
+                       f"{fname}() modifies the module-level container {cont} in place{via}: state leaks from one call into the next",
+                       node, where=f"{mod}:{fname}", file=mi.relpath)
+    return nfun
